@@ -61,12 +61,12 @@ CLAIMS = {
          "substitute (simultaneity: swap tables) of BDD and BCDD interpreted on structured operands and cubes over three modelled "
          "levels and compared with the fold of cofactors / the cofactor / the simultaneous substitution. Decides tag/dualisation "
          "plumbing, unit discipline and the inductive step; not substitute_prepare's table construction nor the induction itself.", "abstract interpretation of HIR dispatch tables", "3.4, 4 C04"),
- "C05": ("E-LIN(+.forget) + E-FREELIST(.count,.term) + E-CACHE.dm + E-CANON.swap + E-WHO + E-EVENT.gc-order + E-DBG + E-CFG.slabtype: edge linearity on every non-unwind path of every function body "
+ "C05": ("E-LIN(+.forget,.mint) + E-FREELIST(.count,.term) + E-CACHE.dm + E-CANON.swap + E-WHO + E-EVENT.gc-order + E-DBG + E-CFG.slabtype: edge linearity on every non-unwind path of every function body "
          "(drop-elaborated MIR) plus the vetted-destructor table; thread-local free lists and node-count deltas are handed to the "
          "shared store by move only; level_swap releases a node's edges before unlinking children; frozen caller sets of the "
          "node-removal primitives and their gates; Manager::gc sweeps all inner-node levels before the terminal table; the apply cache (uncounted edges) stays locked and empty "
          "between pre_gc and post_gc; node-count bookkeeping (failed allocation undone, adjusted delta stored) and the terminal "
-         "free list written back after a sweep; every removal of a node from a unique table reaches the release of the removed edge on all non-unwind paths (E-LIN.forget). Necessary conditions of exact reference counts: no owned edge is dropped by the "
+         "free list written back after a sweep; every removal of a node from a unique table reaches the release of the removed edge on all non-unwind paths (E-LIN.forget); every function that builds an owned edge out of a raw id/pointer is inventoried and the copying ones increment a count on every path first (E-LIN.mint). Necessary conditions of exact reference counts: no owned edge is dropped by the "
          "compiler instead of being released through the manager, on any path incl. every `?`/out-of-memory path; no slot is on two "
          "free lists. Exactness over histories is not decided.",
          "MIR drop-terminator typestate lint (rustc_private driver) + move-only dataflow + who-may-call", "3.1, 3.8, 3.5, 4 C05"),
